@@ -37,6 +37,83 @@ def main():
         res = []
         for case in req.get("cases", []):
             tc = typeguard.typechecked if case["checker"] == "typeguard" else beartype.beartype
+            if case.get("kind") in ("kwargs", "dictarg"):
+                # one annotation for every value of **kwargs / of a dict argument; the caller's key order is NOT sorted order, and jit /
+                # vmap / eval_shape rebuild keyword arguments and dicts in sorted-key order: the verdict must not depend on that
+                import typing as _ty
+                annv = Float[Array, case["dim"]] if "dims" not in case else _ty.Union[tuple(Float[Array, d] for d in case["dims"])]
+                if case["kind"] == "kwargs":
+                    def f(**terms):
+                        return 0.0
+                    f.__annotations__ = {"terms": annv}
+                else:
+                    def f(terms):
+                        return 0.0
+                    f.__annotations__ = {"terms": dict[str, annv]}
+                try:
+                    fn = jaxtyped(typechecker=tc)(f)
+                except BaseException as e:  # noqa
+                    res.append({"decorate": type(e).__name__}); continue
+
+                def mk(fill):
+                    return {k: (jnp.zeros(tuple(sh), "float32") if fill == "zeros" else jnp.full(tuple(sh), 7.0 if fill == "alt" else jnp.nan, "float32")) for k, sh in case["kw"]}
+
+                def call(g, d):
+                    return g(**d) if case["kind"] == "kwargs" else g(d)
+
+                def runk(how, d):
+                    try:
+                        if how == "eager":
+                            call(fn, d)
+                        elif how == "jit":
+                            call(jax.jit(fn), d)
+                        elif how == "eval_shape":
+                            jax.eval_shape(fn, **d) if case["kind"] == "kwargs" else jax.eval_shape(fn, d)
+                        elif how == "jit_of_jit":
+                            call(jax.jit(jax.jit(fn)), d)
+                        elif how == "vmap_all":
+                            call(jax.vmap(fn), {k: jnp.stack([v, v]) for k, v in d.items()})
+                        elif how == "jit_vmap":
+                            call(jax.jit(jax.vmap(fn)), {k: jnp.stack([v, v]) for k, v in d.items()})
+                        return "ok"
+                    except BaseException as e:  # noqa
+                        return classify(e)
+                r = {"eager": {fill: runk("eager", mk(fill)) for fill in ("zeros", "alt", "nan")}}
+                r["traced"] = {h: {fill: runk(h, mk(fill)) for fill in ("zeros", "alt")} for h in ("jit", "eval_shape", "jit_of_jit", "vmap_all", "jit_vmap")}
+                res.append(r)
+                continue
+            if case.get("kind") == "pytree_first_traced":
+                # a function with a PyTree-of-arrays parameter whose FIRST EVER call is a traced one, under jax.checking_leaks():
+                # checking must not keep tracers alive beyond the trace (nor behave differently from the eager call that follows)
+                def f(t, x):
+                    return x
+                f.__annotations__ = {"t": PyTree[Float[Array, case["dim"]]], "x": Float[Array, case["dim"]], "return": Float[Array, case["dim"]]}
+                fn = jaxtyped(typechecker=tc)(f)
+                tree = lambda: {"a": jnp.zeros(tuple(case["leaf"]), "float32"), "b": (jnp.zeros(tuple(case["leaf"]), "float32"),)}
+                xs = lambda: jnp.zeros(tuple(case["x"]), "float32")
+
+                def runl(how):
+                    try:
+                        with jax.checking_leaks():
+                            if how == "jit":
+                                jax.jit(fn)(tree(), xs())
+                            elif how == "eval_shape":
+                                jax.eval_shape(fn, tree(), xs())
+                            elif how == "grad":
+                                jax.grad(lambda t, x: jnp.sum(fn(t, x)), argnums=1)(tree(), xs())
+                            elif how == "vmap_all":
+                                jax.vmap(fn)(jax.tree_util.tree_map(lambda a: jnp.stack([a, a]), tree()), jnp.stack([xs(), xs()]))
+                            else:
+                                fn(tree(), xs())
+                        return "ok"
+                    except BaseException as e:  # noqa
+                        return classify(e) if "Leaked" not in str(e) else "LEAKED-TRACER"
+                first = {h: {"zeros": runl(h)} for h in [case["first"]]}
+                r = {"traced": first}
+                r["eager"] = {fill: runl("eager") for fill in ("zeros", "alt", "nan")}
+                r["traced"].update({h: {"zeros": runl(h)} for h in ("jit", "eval_shape", "grad", "vmap_all") if h != case["first"]})
+                res.append(r)
+                continue
             names = [p[0] for p in case["params"]]
             ann, vals_variants = {}, []
             for p in case["params"]:
